@@ -1396,6 +1396,19 @@ func (e *Enc) evalModTarget(x *SExpr, env *SpecEnv) []modTarget {
 		case "chan":
 			c := env.eval(x.Args[1])
 			return []modTarget{{comp: "CH:len", sort: "(Array Int Int)", kind: "point", addr: c.term()}}
+		case "captured":
+			// captured(f): the variables captured by reference by the closure f (a callback handed to
+			// the callee, which may run it)
+			f := env.eval(x.Args[1])
+			for _, b := range f.Bind {
+				if b == nil || b.T == nil {
+					continue
+				}
+				if dt := derefType(b.T); dt != nil && b.K == KInt {
+					e.leafTargets(&Ref{b.term(), dt, b.Comp}, &out)
+				}
+			}
+			return out
 		}
 	}
 	// ghost var
